@@ -608,9 +608,10 @@ impl RandomProp for Rings {
                     .collect(),
             })
             .boxed();
-        let small = (tys, hows, 0u8..6, base(), base())
+        let small = (tys, hows, 0u8..7, base(), base())
             .prop_flat_map(|(ty, how, domain, bx, by)| {
-                let dyadic = domain <= 2;
+                // 6 = dyadic rings scaled by 2^-16: exact areas between 2^-49 and 10^-6
+                let dyadic = domain <= 2 || domain == 6;
                 let n = if (how == How::Macro || how == How::MacroStruct) { 1usize..=2 } else { 1usize..=6 };
                 let ring = if (how == How::Macro || how == How::MacroStruct) {
                     // macro arities: 3..=5 vertices, no pre-closing so that the arity is what the harness spells out
@@ -632,6 +633,14 @@ impl RandomProp for Rings {
                             copy.pts.reverse();
                         }
                         rings.push(copy);
+                    }
+                    if domain == 6 {
+                        for r in rings.iter_mut() {
+                            for v in r.pts.iter_mut() {
+                                v[0] = F::of(v[0].v() / 65536.0);
+                                v[1] = F::of(v[1].v() / 65536.0);
+                            }
+                        }
                     }
                     if domain == 1 || domain == 2 {
                         let scale = if domain == 2 { 1.0 / 1024.0 } else { 1.0 / 16.0 };
